@@ -7,7 +7,7 @@ property monitors on real traces -> on any broken obligation / disagreement sear
 input -> verdict + evidence."""
 import sys, os, json, random, shutil, time, re, traceback
 sys.path.insert(0, os.path.dirname(os.path.abspath(__file__)))
-import vlib, kapi, genapi, monitors
+import vlib, kapi, genapi, monitors, ksizes
 
 TRUSTED_BASE = [
     'Coq 8.16.1 kernel (coqc, full .vo build); vm_compute used for reflection over regenerated tables and finite sweeps; no native_compute',
@@ -257,6 +257,54 @@ def check_C03(res, tier, seed):
     finish_proof_side(c, res, 'C03')
 
 
+def _ksizes_job(args):
+    return ksizes.run_sequence(*args)
+
+
+def check_C12(res, tier, seed):
+    import multiprocessing
+    c = prepare('C12', res, extra_vo=['extract/ExtractOp.vo'])
+    opdrv = vlib.build_ocaml('opdrv', 'op_model', 'opdrv.ml')
+    n = 320 if tier == 'quick' else 8000
+    stats = {'sequences': 0, 'calls': 0, 'disagreements': 0, 'monitor_alarms': 0, 'op_kinds': {}, 'rv_kinds': {}}
+    seen = set()
+    samples = []
+    reported = 0
+    with multiprocessing.Pool(16) as pool:
+        for out in pool.imap(_ksizes_job, [(c.lib, c.harness['p11drv'], opdrv, seed, i) for i in range(n)], chunksize=4):
+            stats['sequences'] += 1
+            tr = out['trace']
+            stats['calls'] += len(tr)
+            for l, r in tr:
+                k = l.split()[0]
+                stats['op_kinds'][k] = stats['op_kinds'].get(k, 0) + 1
+                stats['rv_kinds'][r.get('rv', '?')] = stats['rv_kinds'].get(r.get('rv', '?'), 0) + 1
+            sig = tuple((l.split()[0], l.split()[-1], r.get('rv'), r.get('len')) for l, r in tr)
+            if len(tr) > 12:
+                seen.add(sig)
+            if len(samples) < 2:
+                samples.append([l[:80] + '  =>  ' + ' '.join('%s=%s' % (k, v) for k, v in r.items() if k in ('rv', 'len', 'ovw')) for l, r in tr[5:45]])
+            if out['alarms']:
+                stats['monitor_alarms'] += 1
+                if reported < 3:
+                    reported += 1
+                    i, msg = out['alarms'][0]
+                    res.violation('C12 monitor: %s' % msg, {'kind': 'monitor', 'message': msg, 'ops': [l for l, _ in tr[:i + 1]],
+                                                           'results': [r.get('line', '').strip() for _, r in tr[max(0, i - 3):i + 1]], 'seed': seed, 'sequence': out['i']})
+            if out['dis']:
+                stats['disagreements'] += 1
+                if not out['alarms'] and reported < 3:
+                    reported += 1
+                    j, why = out['dis']
+                    res.violation('C12 correspondence K-sizes: model and implementation differ at call %d (%s): %s' % (j, tr[j][0][:80], why),
+                                  {'kind': 'correspondence', 'stream': 'K-sizes', 'ops': [l for l, _ in tr[:j + 1]], 'difference': why, 'seed': seed, 'sequence': out['i'],
+                                   'names': 'the correspondence stream K-sizes (coq/Crypto/OpModel.v vs libsofthsm2.so) no longer checks'}, no_input=True)
+    res.coverage.update({'evaluations': stats['calls'], 'distinct_nontrivial': len(seen),
+                         'rule': 'per sequence: AES ECB/CBC/CBC-PAD/CTR/GCM encryption of a random message in random parts (zero-length parts included) and decryption of the produced ciphertext, each call preceded by a length query and/or a too-small buffer with probability ~0.6, then a sufficient buffer; wrong-kind and second-Init calls interleaved; SHA-256 digest and HMAC with buffer sizes {NULL,0,31,32,40}; distinct = distinct (op, buffer, rv, length) sequences',
+                         'samples': samples, 'k_sizes': stats, 'traces_validated_against_impl': stats['sequences']})
+    finish_proof_side(c, res, 'C12')
+
+
 def kapi_check(pid, profile, monitor_name, rule, nq=400, nt=12000, nops=45):
     def f(res, tier, seed):
         c = prepare(pid, res)
@@ -269,7 +317,7 @@ def kapi_check(pid, profile, monitor_name, rule, nq=400, nt=12000, nops=45):
 
 
 RULE = 'model-guided random call sequences over 2 tokens and up to ~8 sessions (%s profile of tools/genapi.py); a trace is non-trivial when at least 3 calls after the prelude succeed; distinct = distinct (op, rv) sequences'
-CHECKS = {'C03': check_C03,
+CHECKS = {'C03': check_C03, 'C12': check_C12,
           'C01': kapi_check('C01', 'objects', 'monitor_c01', RULE % 'objects'),
           'C04': kapi_check('C04', 'pins', 'monitor_c03', RULE % 'pins'),
           'C11': kapi_check('C11', 'handles', 'monitor_c11', RULE % 'handles'),
